@@ -334,7 +334,7 @@ def build(tier):
     if tier in _CACHE:
         return _CACHE[tier]
     r = common.rng("C12.sessions")
-    per_pair = 10 if tier == "quick" else 60
+    per_pair = 20 if tier == "quick" else 200
     nh = 4
     ladder, store, probe, py, keys = [], [], [], [], []
     hk_i = 0
